@@ -195,4 +195,15 @@ func init() {
 		Real: []string{"LocalStore.StoreChunk", "LocalStore.Prune", "ChopFile", "Copy", "ChunkStorage", "tempfile"},
 		Stub: []string{"scheduler", "crash injector", "source store"},
 	})
+	reg(&Prop{ID: "C16", Level: "exploration",
+		Quick:    Tier{Cases: 32000, PerJob: 2000, Seconds: 70},
+		Thorough: Tier{Cases: 1600000, PerJob: 20000, Seconds: 1500},
+		Rule: "one case = local store directory of 0..40 objects produced by a simulated history: valid chunks in the store's own format, the same chunk in both formats, chunks of the other format only, invalid chunks (bit flip, truncation, other data, emptied), abandoned .tmp-cacnk* files of killed writers, junk files incl. chunk-like names x store mode {compressed, uncompressed} x one of {Prune with reference set none / all / random subset / subset plus absent ids; Verify; Verify with repair, both with n in 1..6 workers sharing one writer under the seeded scheduler}; oracle: expected file set and expected set of reported ids, classified by an independent zstd+SHA validator; distinct = distinct (op, mode, object bucket, tape, trace hash); every case is non-trivial (a populated store)",
+		Assumptions: []string{
+			"the name-filter logic is a pure function of the directory listing (DESIGN.md C16 honest limit); the simulated parts are the store history (killed writers, corruption) and the concurrent Verify workers",
+			"S3 and SFTP prune are not exercised",
+		},
+		Real: []string{"LocalStore.Prune", "LocalStore.Verify", "LocalStore.RemoveChunk", "LocalStore.GetChunk"},
+		Stub: []string{"scheduler", "store-history generator"},
+	})
 }
